@@ -80,7 +80,14 @@ class RProp(Prop):
                      "distinct = distinct canonical configuration. The thorough tier first runs the exhaustive small scope "
                      "(every root with one or two atomic jobs, and every root with a nested scheduler holding one job plus "
                      "an optional sibling that may require it, over critical/forever/outcome/duration 0-1/handler 0-1 and "
-                     "windows 0-1, timeouts None/0/1: 166 400 trees), then 100 000 random trees." % max_jobs)
+                     "windows 0-1, timeouts None/0/1: 166 400 trees), then 100 000 random trees.  Both tiers add window-stress "
+                     "trees (one scheduler, window 1-3, 4-12 jobs ending a few loop iterations apart in one instant, "
+                     "successors created in between): 60 or 200 at the quick tier, a hundred times more at the thorough one, and "
+                     "crash-point trees (an outer scheduler ends by timeout or critical failure while a scheduler one or two "
+                     "levels below is in its main loop, is cancelling a job whose cancellation takes time, or is shutting "
+                     "down): 40 or 150 at the quick tier, a hundred times more at the thorough one; a "
+                     "quarter of the random trees run with an inspector calling the read-only API of every scheduler at every "
+                     "quiescent point, half of them through the synchronous wrappers run()/shutdown()." % max_jobs)
 
     def generate(self, tier, rnd):
         n = 1000 if tier == "quick" else 100000
@@ -91,6 +98,16 @@ class RProp(Prop):
         for _ in range(n):
             mj = rnd.choice([3, 5, 8, self.max_jobs, self.max_jobs])
             out.append(rgen.gen_config(rnd, max_jobs=mj, profile=self.profile))
+        # window stress (rgen.gen_ladder): 200 at the quick tier for the properties about windows,
+        # 60 for the others; a hundred times more at the thorough tier
+        k = 200 if self.pid in ("C03", "C07", "C12") else 60
+        for _ in range(k if tier == "quick" else 100 * k):
+            out.append(rgen.gen_ladder(rnd))
+        # crash points of nested runs (rgen.gen_stagger): an outer scheduler ends while an inner one is in
+        # its main loop / cancelling a job that takes time to cancel / shutting down
+        k = 150 if self.pid in ("C05", "C08", "C09", "C11", "C13") else 40
+        for _ in range(k if tier == "quick" else 100 * k):
+            out.append(rgen.gen_stagger(rnd))
         return out
 
     def evaluate(self, cases):
